@@ -411,8 +411,8 @@ def run_atheris(spec, seed, acc):
 
 
 def shards(tier, seed):
-    n = 16 if tier == 'thorough' else 8
-    per = 400 if tier == 'thorough' else 55
+    n = 16
+    per = 400 if tier == 'thorough' else 110
     s = [{'kind': 'hyp', 'shard': i, 'n': per} for i in range(n)]
     s.append({'kind': 'fixtures'})
     if tier == 'thorough':
